@@ -37,7 +37,8 @@ Definition st_eqb (a b : st) : bool :=
   && opt_eqb Z.eqb (f a) (f b) && opt_eqb Z.eqb (m a) (m b) && Z.eqb (p a) (p b)
   && opt_eqb Z.eqb (c a) (c b) && Z.eqb (ad a) (ad b) && opt_eqb Z.eqb (y a) (y b) && Z.eqb (ad2 a) (ad2 b)
   && Nat.eqb (oreg a) (oreg b) && list_eqb Z.eqb (zz a) (zz b) && Z.eqb (ade a) (ade b)
-  && opt_eqb Z.eqb (pv a) (pv b) && Z.eqb (dpv a) (dpv b).
+  && opt_eqb Z.eqb (pv a) (pv b) && Z.eqb (dpv a) (dpv b)
+  && opt_eqb Z.eqb (ch a) (ch b) && Bool.eqb (chreg a) (chreg b) && Z.eqb (u a) (u b).
 
 (* o_reg: digest of the sizes of all notifier lists of the object (handler registrations) *)
 (* o_aux: digest of values read from attributes that are outside the model (a legacy depends_on cached
